@@ -150,8 +150,7 @@ func (d *Decoder) readDate(flag int32) (time.Time, error) {
 func (d *Decoder) readStruct() (interface{}, error) {
 	tag, err := d.readTag()
 	if err != nil {
-		hlog.Debugf("reading tag err:%v", err)
-		return nil, nil //ignore
+		return nil, newCodecError("readTag", "unexpected end of input", err)
 	}
 
 	switch {
@@ -178,8 +177,7 @@ func (d *Decoder) readStruct() (interface{}, error) {
 func (d *Decoder) ReadData() (interface{}, error) {
 	tag, err := d.readTag()
 	if err != nil {
-		hlog.Debugf("reading tag err:%v", err)
-		return nil, nil //ignore
+		return nil, newCodecError("readTag", "unexpected end of input", err)
 	}
 
 	switch {
